@@ -4,6 +4,7 @@ import GixModel.Lemmas.C36NoPath
 import GixModel.Lemmas.C36Path2
 import GixModel.Lemmas.C36Lead
 import GixModel.Lemmas.C36Mid
+import GixModel.Lemmas.C36Chain
 /-
 C36 — Wildcard matching agrees with git's wildmatch.  PROPERTY THEOREMS ONLY.
 
@@ -221,6 +222,36 @@ theorem pathmode_mid_eq (m : Mode) (hpm : m.noMatchSlash = true) (p t : Bytes) (
     cases hg : go m ((L ++ 42 :: 42 :: r).length + 1) 63 (L ++ 42 :: 42 :: r) t ⟨0, L ++ 42 :: 42 :: r⟩ ⟨0, t⟩ <;>
       first | rfl | exact absurd hg h2
 
+/-- T4-path tier 5 (chains of `**/`): in path mode, for every pattern in `Chain` — pieces without
+`*`, `[`, `\` that are empty or end in `/`, each followed by a run of two or more stars and a plain `/`,
+and at the end a rest without boundary run: `**/a/**/b`, `a/**/b/**/*.c`, `**/**/x` — with fewer than
+64 star bytes, and every text, `wildmatch` gives git's answer. Rests on `dowild_fuel_stable` (git's
+dowild does not depend on the fuel of the transcription once it exceeds the pattern length) and on
+`bd_closure` (ABORT_ALL of `L/**/y` is suffix-sound when that of `/y` is: a match of a later suffix
+would start behind a `/`, where the `**/` loop has already looked). -/
+theorem pathmode_chain_eq (m : Mode) (hpm : m.noMatchSlash = true) (p t : Bytes) (hok : PatOk m p)
+    (hds : Chain p) (hcnt : (p.filter (· == 42)).length < 64) (ht : NoNul t) :
+    C36.wildmatch m p t = Spec.C36.wildmatch (flagsOf m) p t := by
+  unfold C36.wildmatch Spec.C36.wildmatch matchRecursive RECURSION_LIMIT
+  have h := (chain_good m hpm p hds).relY (p.length + 1) 63 t hok ht (by omega) (by unfold count42; omega)
+  simp only [Iter.ofSlice]
+  rcases h with h | ⟨h1, h2⟩
+  · rw [h]; cases dowild (flagsOf m) (p.length + 1) none p t <;> rfl
+  · rw [h1]
+    cases hg : go m (p.length + 1) 63 p t ⟨0, p⟩ ⟨0, t⟩ <;> first | rfl | exact absurd hg h2
+
+-- non-vacuity: `**/a/**/b` and `a/**/b/**/*.c` are chains
+example : Chain [42, 42, 47, 97, 47, 42, 42, 47, 98] :=
+  .step [] [47, 97, 47, 42, 42, 47, 98] [97, 47, 42, 42, 47, 98]
+    (.step [97, 47] [47, 98] [98] (.base [98] (by decide)) (by decide) (by decide) (by decide))
+    (by decide) (by decide) (by decide)
+example : Chain [97, 47, 42, 42, 47, 98, 47, 42, 42, 47, 42, 46, 99] :=
+  .step [97, 47] [47, 98, 47, 42, 42, 47, 42, 46, 99] [98, 47, 42, 42, 47, 42, 46, 99]
+    (.step [98, 47] [47, 42, 46, 99] [42, 46, 99] (.base [42, 46, 99] (by decide)) (by decide) (by decide) (by decide))
+    (by decide) (by decide) (by decide)
+example : C36.wildmatch ⟨true, false⟩ [42, 42, 47, 97, 47, 42, 42, 47, 98] [120, 47, 97, 47, 121, 47, 122, 47, 98] = true := by
+  decide +kernel
+
 /-- What path mode covers now, as one predicate: no `**/` boundary at all, or exactly one, with no
 star and no bracket anywhere in front of it. -/
 def PathModeCovered (p : Bytes) : Prop :=
@@ -234,8 +265,32 @@ theorem pathmode_covered_eq (m : Mode) (hpm : m.noMatchSlash = true) (p t : Byte
   · exact pathmode_leading_eq m hpm p t hok h hcnt ht
   · exact pathmode_mid_eq m hpm p t hok h hcnt ht
 
+/-- Everything proved for path mode under one predicate: tiers 1–4 (`PathModeCovered`, computable) or a
+chain of boundaries (tier 5). -/
+def PathModeProved (p : Bytes) : Prop := PathModeCovered p ∨ Chain p
+
+theorem pathmode_proved_eq (m : Mode) (hpm : m.noMatchSlash = true) (p t : Bytes) (hok : PatOk m p)
+    (hds : PathModeProved p) (hcnt : (p.filter (· == 42)).length < 64) (ht : NoNul t) :
+    C36.wildmatch m p t = Spec.C36.wildmatch (flagsOf m) p t := by
+  rcases hds with h | h
+  · exact pathmode_covered_eq m hpm p t hok h hcnt ht
+  · exact pathmode_chain_eq m hpm p t hok h hcnt ht
+
+-- outside of everything proved: a star in front of a boundary (`a*/**/b`), a boundary run followed by
+-- an escaped slash (`**\/a`)
+example : ¬ PathModeProved [97, 42, 47, 42, 42, 47, 98] := by
+  intro h
+  rcases h with h | h
+  · revert h; unfold PathModeCovered PathModeOk; decide +kernel
+  · have := chain_necessary _ h; revert this; decide +kernel
+example : ¬ PathModeProved [42, 42, 92, 47, 97] := by
+  intro h
+  rcases h with h | h
+  · revert h; unfold PathModeCovered PathModeOk; decide +kernel
+  · have := chain_necessary _ h; revert this; decide +kernel
+
 -- non-vacuity: `**/foo`, `***/a*/[bc]**d/**`, `a/**/b`, `src/**/*.rs` are covered;
--- `a*/**/b` (a star above the boundary), `**/a/**/b` (two boundaries) and `**\/a` are not
+-- `a*/**/b` (a star above the boundary), `**/a/**/b` (two boundaries: tier 5) and `**\/a` are not in `PathModeCovered`
 example : LeadingDoubleStarOk [42, 42, 47, 102, 111, 111] = true := by decide +kernel
 example : LeadingDoubleStarOk [42, 42, 42, 47, 97, 42, 47, 91, 98, 99, 93, 42, 42, 100, 47, 42, 42] = true := by
   decide +kernel
